@@ -172,6 +172,24 @@ def not_object(ctx, dec_lines, dec_meta):
     """Validly signed / encrypted payloads that are not JSON objects."""
     from joserfc import jwt, jwe, jws
     payloads = [b"[1,2]", b"\"x\"", b"7", b"null", b"true", b"1.5", b"", b"{", b"not json", b"\xff\xfe", b"{\"sub\":\"\xff\xfe\"}", b"\x80\x81\x82 binary blob", b"{\"a\":1}\xc3", b"\xc3\x28", b"[" * 5000, b"{\"a\":1}x", b" {\"a\": 1} ", b"{\"a\":1}"]
+    # JSON values that are not objects but that Python would happily convert to / treat like a mapping or a claims set:
+    # empty containers, lists of pairs, lists of two-character strings, strings, nested lists, numbers, booleans
+    payloads += [b"[]", b"\"\"", b"[[\"admin\",true],[\"sub\",\"root\"]]", b"[\"ab\",\"cd\"]", b"[[1,[2]]]", b"[[]]", b"[{}]", b"[{\"sub\":\"a\"}]",
+                 b"\"{}\"", b"\"{\\\"sub\\\":1}\"", b"0", b"false", b"-0.0", b"1e3", b"[[\"exp\",1]]", b"[\"k\",\"v\"]", b"[null]", b" [ ] ", b"{}"]
+    rng = ctx.rng
+
+    def rand_json(depth):
+        r = rng.random()
+        if depth > 2 or r < 0.3:
+            return rng.choice([None, True, False, 0, 1, -1, 2.5, "", "ab", "sub", "a b c"])
+        if r < 0.8:
+            return [rand_json(depth + 1) for _ in range(rng.randrange(0, 3))]
+        return {rng.choice(["a", "sub", "exp"]): rand_json(depth + 1) for _ in range(rng.randrange(0, 3))}
+    for _ in range(20 if ctx.tier == "quick" else 300):
+        v = rand_json(0)
+        if isinstance(v, dict):
+            v = [v] if rng.random() < 0.5 else [[k_, x] for k_, x in v.items()]
+        payloads.append(json.dumps(v).encode())
     oct_k = K.key("oct32")
     for p in payloads:
         for transport in ("jws", "jwe"):
